@@ -216,13 +216,13 @@ def run(pid, tier, seed, update_lock=False, verbose=False, only=None):
                 undecided.append('%s: solver %s on %s (line %s)' % (r['fid'], rec['status'], ob_key(rec), rec['line']))
         # a FUC whose every path ended early has no path-end cover that is sat
         pe = [x for x in r['records'] if x['must_be_sat'] and x['label'] == 'path-end']
-        if r['records'] and r['key'][0] != '__lemma__' and r.get('verify_body', True) and not any(x['status'] == 'sat' for x in pe) \
+        if r['records'] and r['key'][0] != '__lemma__' and r.get('verify_body', True) and pe and all(x['status'] == 'unsat' for x in pe) \
                 and not r['undecided'] and not r['errors']:
             vacuous.append('%s: no feasible path reaches the end of the function' % r['fid'])
         fuc_rows.append(dict(function=r['fid'], file=os.path.relpath(r['file'], repo_root()) if r['file'] and r['file'] != '(spec)' else r['file'],
                              line=r['line'], source_sha1=r['source_hash'], paths=r['paths'], obligations=nf, discharged=df,
                              seconds=round(r['seconds'], 2), outcomes=r['outcomes']))
-    if not tasks or n_obl == 0:
+    if (not tasks or n_obl == 0) and not undecided:
         errors.append('zero obligations generated for %s' % pid)
     # lock: obligations that used to be discharged and have disappeared
     if lock and not update_lock and not only:
